@@ -6,7 +6,7 @@ open Iora Iora.Dns Iora.DnsCache Iora.Driver
 
 def showErr : Err → String
   | .tooShort => "tooShort" | .bounds => "bounds" | .badPointer => "badPointer" | .loop => "loop"
-  | .labelTooLong => "labelTooLong" | .nameTooLong => "nameTooLong" | .unterminated => "unterminated"
+  | .labelTooLong => "labelTooLong" | .nameTooLong => "nameTooLong" | .unterminated => "unterminated" | .tooManyJumps => "tooManyJumps"
   | .malicious => "malicious" | .rdShort => "rdShort" | .rdBadPointer => "rdBadPointer" | .rdBeyond => "rdBeyond"
   | .rdLabel => "rdLabel" | .rdExtends => "rdExtends" | .typedLen => "typedLen" | .encLabel => "encLabel"
   | .encName => "encName" | .oob => "OOB" | .fuel => "FUEL"
@@ -93,7 +93,11 @@ def step (st : St) : List String → St × String
     | none => (st, "bad-op")
   | "query" :: rd :: id :: rest =>
     match parseBit rd, id.toNat?, parseQs rest with
-    | some rd, some id, some qs => (st, match buildQuery qs rd id with | .ok w => toHex w | .error e => s!"err {showErr e}")
+    | some rd, some id, some qs =>
+      -- id 0: the code generates an id in 1..65535; both sides print `xxxx` for those two bytes
+      (st, match buildQuery qs rd id 1 with
+           | .ok w => if id = 0 then "xxxx" ++ toHex (w.drop 2) else toHex w
+           | .error e => s!"err {showErr e}")
     | _, _, _ => (st, "bad-op")
   | ["resp", mode, ids, hx] =>
     -- N6: DnsTransport::processResponse with the given pending query ids (mode udp|tcp: no difference outside TCP fallback)
